@@ -25,7 +25,10 @@ import (
 )
 
 type rsCase struct {
-	Pkt string `json:"pkt"`
+	Pkt     string `json:"pkt"`
+	Plain   string `json:"plain"`   // if set: build a well-formed query carrying this plaintext under the noise layer
+	HasPlain bool  `json:"has_plain"`
+	RespLen int    `json:"resplen"` // size of the answer the registration callback returns in the loop
 }
 
 type rsQ struct {
@@ -65,6 +68,9 @@ type rsObs struct {
 	Payload string `json:"payload"`
 	WireLen int    `json:"wirelen"`
 	// the real loop
+	PktBuilt  string `json:"pkt_built"`
+	LoopDone  bool   `json:"loop_done"`
+	LoopRLen  int    `json:"loop_rlen"`
 	LoopResp  bool   `json:"loop_resp"`
 	LoopFlags uint16 `json:"loop_flags"`
 	LoopProc  string `json:"loop_proc"` // what processMsg received (hex), "" if it was not called
@@ -161,9 +167,58 @@ func TestVerifC11Responder(t *testing.T) {
 	cfg.StaticKeypair = noise.DHKey{Private: priv, Public: encryption.PubkeyFromPrivkey(priv)}
 	r := &Responder{domain: domain, privkey: priv, noiseConfig: cfg, maxUDPPayload: 1280 - 40 - 8}
 	res := make([]rsObs, len(cases))
+	pkts := make([][]byte, len(cases))
+	resplen := map[string]int{}
 	for i, c := range cases {
+		pkts[i] = vUnhex(c.Pkt)
+		if c.HasPlain {
+			// what the requester does: noise N handshake message, request format, base32, labels, TXT query with EDNS(0)
+			ccfg := encryption.NewConfig()
+			ccfg.Initiator = true
+			ccfg.PeerStatic = encryption.PubkeyFromPrivkey(priv)
+			hs, err := noise.NewHandshakeState(ccfg)
+			if err != nil {
+				t.Fatal(err)
+			}
+			plain := vUnhex(c.Plain)
+			msg, _, _, err := hs.WriteMessage(nil, plain)
+			if err != nil {
+				t.Fatal(err)
+			}
+			msg, err = msgformat.AddRequestFormat(msg)
+			if err != nil {
+				t.Fatal(err)
+			}
+			enc := make([]byte, base32Encoding.EncodedLen(len(msg)))
+			base32Encoding.Encode(enc, msg)
+			enc = bytes.ToLower(enc)
+			var labels [][]byte
+			for len(enc) > 0 {
+				n := len(enc)
+				if n > 63 {
+					n = 63
+				}
+				labels = append(labels, enc[:n])
+				enc = enc[n:]
+			}
+			labels = append(labels, domain...)
+			name, err := dns.NewName(labels)
+			if err != nil {
+				t.Fatal(err)
+			}
+			q := &dns.Message{ID: uint16(i), Flags: 0x0100, Question: []dns.Question{{Name: name, Type: dns.RRTypeTXT, Class: dns.ClassIN}},
+				Additional: []dns.RR{{Name: dns.Name{}, Type: dns.RRTypeOPT, Class: 4096, TTL: 0, Data: []byte{}}}}
+			pkts[i], err = q.WireFormat()
+			if err != nil {
+				t.Fatal(err)
+			}
+			resplen[vHexS(plain)] = c.RespLen
+		}
+	}
+	for i := range cases {
 		var o rsObs
-		pkt := vUnhex(c.Pkt)
+		pkt := pkts[i]
+		o.PktBuilt = vHexS(pkt)
 		var query dns.Message
 		var perr error
 		o.POut, o.PDetail = vGuard(10*time.Second, func() { query, perr = dns.MessageFromWireFormat(pkt) })
@@ -219,11 +274,12 @@ func TestVerifC11Responder(t *testing.T) {
 		}
 		res[i] = o
 	}
+	// the step-by-step observations are on disk before the real loop runs: a panic inside the goroutines
+	// RecvAndRespond starts cannot be recovered and kills this process
+	vWriteOut(t, res)
 	// the real loop on the same packets
 	sc := &scriptConn{resp: map[int][]byte{}, done: make(chan struct{})}
-	for _, c := range cases {
-		sc.pkts = append(sc.pkts, vUnhex(c.Pkt))
-	}
+	sc.pkts = pkts
 	r.transport = sc
 	var pmu sync.Mutex
 	procs := map[string]bool{}
@@ -232,8 +288,9 @@ func TestVerifC11Responder(t *testing.T) {
 		loopDone <- r.RecvAndRespond(func(b []byte) ([]byte, error) {
 			pmu.Lock()
 			procs[vHexS(b)] = true
+			n := resplen[vHexS(b)]
 			pmu.Unlock()
-			return []byte("ok"), nil
+			return bytes.Repeat([]byte{0x5a}, n), nil
 		})
 	}()
 	// wait until the handlers are idle
@@ -257,8 +314,13 @@ func TestVerifC11Responder(t *testing.T) {
 	}
 	sc.mu.Lock()
 	for i := range cases {
+		res[i].LoopDone = true
+		if cases[i].HasPlain && procs[cases[i].Plain] {
+			res[i].LoopProc = cases[i].Plain
+		}
 		if b, ok := sc.resp[i]; ok {
 			res[i].LoopResp = true
+			res[i].LoopRLen = len(b)
 			if len(b) >= 4 {
 				res[i].LoopFlags = uint16(b[2])<<8 | uint16(b[3])
 			}
